@@ -27,7 +27,8 @@ REGISTRY = {
             'contains X), x_residue_massless (the counter-example to strictness in the code as it is), terminal_mod_locality (N-terminal mods '
             'sit on every prefix ion, C-terminal mods on every suffix ion, by exactly their value); the signed-charge mass / mz of every ion type '
             'is run against the model (correspondence mass_mz_signed) and the new relations are evaluated on real fragment() / mass() / mz() '
-            'output (oracle ext_relations)',
+            'output (oracle ext_relations); both entry points - fragment() and Fragmenter(...).fragment() - are evaluated on the ProForma text with '
+            'and without a precursor charge suffix /z and compared with each other (oracle entry_points)',
     'note': 'trusted: Lean kernel; the Python subset reader harness/translate_masscore.py (its output Generated/MassCorePy.lean is committed and readable next to the source; round(x, p) is read as round-half-even on the exact rational, floats as exact rationals); translator; hand-typed NIST/CODATA data; fragment() itself is not modelled here (C04) - every fragment '
             'it returns is re-computed by the model of mass() from the fragment\'s own sequence text (correspondence) and checked '
             'directly by the oracle; which fragment annotations contain a residue (slicing) is C07/C11',
@@ -415,6 +416,89 @@ def run(chk):
     chk.oracle('ext_relations', ecases, ext_relations, nontrivial_fn=lambda c: cm.has_mods(c[0]) or len(c[0]._sequence) >= 3, key_fn=keyf)
     _attach(chk, 'ext_relations', ecases, ext_relations)
 
+    # ------------------------------------------------------------------ both entry points, with and without a '/z' charge suffix
+    def entry_points(c):
+        """fragment() and Fragmenter(...).fragment() on the ProForma text, with and without a precursor charge suffix '/z': the C05
+        relations hold on each (M = neutral mass of the peptide) and the three answers are the same numbers"""
+        a, mono, zs = c
+        o = off(mono)
+        n = len(a._sequence)
+        plain = a.serialize()
+        text = plain if zs is None else plain + '/' + str(zs)
+        res = _ref_residues(chk, nuc, avg)
+        M = pt.mass(plain, charge=0, ion_type='p', monoisotopic=mono)
+        types, charges = cm.FRAGMENT_TYPES, [1, 2, 3]
+        runs = {
+            'fragment(text)': pt.fragment(text, ion_types=types, charges=charges, monoisotopic=mono),
+            'Fragmenter(text).fragment': pt.Fragmenter(text, monoisotopic=mono).fragment(ion_types=types, charges=charges),
+            'Fragmenter(annotation).fragment': pt.Fragmenter(pt.parse(text), monoisotopic=mono).fragment(ion_types=types, charges=charges),
+            'fragment(text without /z)': pt.fragment(plain, ion_types=types, charges=charges, monoisotopic=mono),
+        }
+        ixs = {k: {(f.ion_type, f.start, f.end, f.charge): f.mass for f in v} for k, v in runs.items()}
+        bad = []
+
+        def close(x, y, what):
+            if abs(x - y) > TOL:
+                bad.append(f'{what}: {x!r} vs {y!r} (diff {x - y:.6g})')
+
+        def gained(k):
+            tot = res[(a._sequence[k], mono)]
+            for m in (a._internal_mods or {}).get(k, []):
+                tot += ref_mod_mass(m, mono, nuc, avg)
+            return tot
+
+        ref = ixs['fragment(text without /z)']
+        for name, ix in ixs.items():
+            if set(ix) != set(ref):
+                bad.append(f'{name} on {text!r}: a different set of fragments than fragment() on {plain!r}')
+                continue
+            for key, m in ix.items():
+                if abs(m - ref[key]) > 1e-7:
+                    t, s0, e0, z = key
+                    bad.append(f'{name} on {text!r}: {t}[{s0},{e0}) z={z} = {m!r}, fragment() on {plain!r} gives {ref[key]!r}')
+                    break
+            try:
+                for i in range(1, n):
+                    close(ix[('b', 0, i, 1)] + ix[('y', i, n, 1)], M + 2 * o['h'], f'{name} on {text!r}: b{i} + y{n - i} = M + 2 protons')
+                for z in charges:
+                    for i in range(1, n + 1):
+                        for t in 'ac':
+                            close(ix[(t, 0, i, z)], ix[('b', 0, i, z)] + series_off(t, o), f'{name} on {text!r}: {t}{i} (z={z}) = b{i} {"".join(OFF_TERM[t])}')
+                    for s0 in range(0, n):
+                        for t in 'xz':
+                            close(ix[(t, s0, n, z)], ix[('y', s0, n, z)] + series_off(t, o),
+                                  f'{name} on {text!r}: {t}{n - s0} (z={z}) = y{n - s0} {"".join(OFF_TERM[t])}')
+                for k in range(n):
+                    if (k == 0 and a._nterm_mods) or (k == n - 1 and a._cterm_mods):
+                        continue
+                    close(ix[('i', k, k + 1, 1)], gained(k) - o['CO'] + o['h'], f'{name} on {text!r}: immonium {k} = residue - CO + proton')
+                close(ix[('a', 0, 1, 1)], gained(0) + sum(ref_mod_mass(m, mono, nuc, avg) for m in a._nterm_mods or []) - o['CO'] + o['h'],
+                      f'{name} on {text!r}: a1 = first residue - CO + proton')
+                for (t, s0, e0, z), m in ix.items():
+                    if (t, s0, e0, z + 1) in ix:
+                        close(ix[(t, s0, e0, z + 1)], m + o['p'], f'{name} on {text!r}: {t}[{s0},{e0}) charge {z}->{z + 1} adds one proton')
+            except KeyError as e:
+                bad.append(f'{name} on {text!r}: fragment {e} missing')
+        return '; '.join(bad[:4]) if bad else None
+
+    n_ep = (30 if tier == 'quick' else 400) * (3 if chk.broken() else 1)
+    epcases = []
+    for i in range(n_ep):
+        a = gen_peptide(rng)
+        epcases.append((a, rng.random() < 0.5, rng.randint(1, 4) if i % 2 == 0 else None))
+    ep_key = lambda c: annot.dump(c[0]) + '|' + str(c[1]) + '|/' + str(c[2])
+    chk.oracle('entry_points', epcases, entry_points, key_fn=ep_key)
+    for f in chk.failures:
+        if f['oracle'] == 'entry_points' and not isinstance(f['case'], dict):
+            for c in epcases:
+                if repr(c) == f['case']:
+                    a, mono, zs = c
+                    text = a.serialize() + ('' if zs is None else '/' + str(zs))
+                    f['case'] = {'annotation': annot.dump(a), 'proforma': text, 'kw': {'monoisotopic': mono},
+                                 'call': f"peptacular.Fragmenter({text!r}, monoisotopic={mono}).fragment(ion_types=[...], charges=[1, 2, 3])"}
+                    f['function'] = 'peptacular.Fragmenter.fragment / peptacular.fragment'
+                    break
+
     # ion-offset tables entry by entry (witness producer for the table theorems)
     from peptacular.chem import chem_constants
 
@@ -517,5 +601,10 @@ def replay(chk, obj):
     print('peptide :', case.get('proforma'), 'monoisotopic =', mono)
     for f in pt.fragment(a.copy(), ion_types=cm.FRAGMENT_TYPES, charges=[1], monoisotopic=mono):
         print(f'  {f.ion_type:3s} [{f.start},{f.end}) {f.mass!r}')
+    if case.get('call'):
+        text = case['proforma']
+        print('entry point:', case['call'])
+        for f in pt.Fragmenter(text, monoisotopic=mono).fragment(ion_types=['a', 'b', 'y'], charges=[1]):
+            print(f'  Fragmenter {f.ion_type:3s} [{f.start},{f.end}) {f.mass!r}')
     print('violated:', obj.get('detail'))
     return 0
